@@ -673,6 +673,11 @@ def conv_P(sj, conv):
 def close(a, b, scale_extra=0.0):
     a = np.asarray(a)
     b = np.asarray(b)
+    for x in (a, b):
+        if x.dtype.kind not in "fiuc":
+            # a public function handed out something that is not an array of real numbers (e.g. object dtype: a
+            # matrix kept from an earlier, unrelated call): reported, not a reason for the harness to stop
+            return {"kind": "type", "impl": "array of dtype %s" % x.dtype, "model": "array of real or complex floats"}
     if a.shape != b.shape:
         return {"kind": "shape", "impl_shape": list(a.shape), "model_shape": list(b.shape)}
     if a.size == 0:
